@@ -391,6 +391,19 @@ example : parseRange (extractInt ⟨true, 32⟩) 2 "1".toList = none := by decid
 example : parseRange (extractInt ⟨true, 32⟩) 2 "1 2 3".toList = none := by decide
 example : parseRange (extractInt ⟨true, 32⟩) 2 "1 2 -".toList = none := by decide
 
+/-- variable-size sequences and bitsets: the text is split at blanks (`" \t\n\r"`), every piece is converted by the
+    element parser — all of them must convert — and a bitset needs exactly `n` pieces -/
+theorem sequences_spec {α} (p : Str → Option α) (n : Nat) (s : Str) :
+    (∀ vs, parseVector p s = some vs ↔ Forall₂ (fun tok v => p tok = some v) (splitWs s) vs) ∧
+    (∀ bs, parseBitset n s = some bs → bs.length = n ∧ (splitWs s).length = n) ∧
+    parseString s = ltrim (rtrim s) :=
+  ⟨fun vs => parseVector_iff p s vs, fun bs h => parseBitset_length n s bs h, rfl⟩
+
+example : parseVector (parseInt tInt) " 1  2\t3 ".toList = some [1, 2, 3] := by decide
+example : parseVector (parseInt tInt) "1 2x 3".toList = none := by decide
+example : parseBitset 3 "1 no TRUE".toList = some [true, false, true] ∧ parseBitset 3 "1 no".toList = none := by decide
+example : parseString "  a b \r\n".toList = "a b".toList := by decide
+
 /-- **get_default_only_if_absent.**  `get(key, default)` returns the default exactly when the key is absent; a
     present key is converted, and if its text is malformed the result is the RangeError, never the default -/
 theorem get_default_only_if_absent {α} (parse : Str → Option α) (t : Tree) (key : Str) (dflt : α) :
